@@ -1,5 +1,6 @@
 CONSTANTS NthYears = {2000, 2001, 2020, 2023}
           Days <- QuickDays
           GenDays <- QuickGenDays
+          GenFams = {"gmon", "gnth", "gnum", "gnumb", "gnp", "gper", "gfmt"}
 INIT GenInit
 NEXT GenNext
